@@ -84,6 +84,13 @@ func runInput(c *corr.Ctx, specs []*cu.Spec, raw []byte, name string) bool {
 		case "cap-size", "cap-peak":
 			capCases(c, s)
 			return true
+		case "fault": // a fault stream of the generic driver: same frames, same faults, fixed base timestamp
+			var in cu.RoundTripInput
+			if json.Unmarshal(raw, &in) == nil {
+				runFault(c, s, &FaultInput{Mode: "h26x-fault", Codec: s.Name, Params: in.Params, Frames: in.Frames,
+					Faults: in.Faults, TS0: 90000}, name)
+				return true
+			}
 		default:
 			return cu.Replay(c, s, raw)
 		}
@@ -179,6 +186,71 @@ func validCases(c *corr.Ctx, s *cu.Spec) {
 			cs.Impl = append(cs.Impl, corr.B(m >= fm.minMax && m <= 65535))
 		}
 		c.Add(cs)
+	}
+}
+
+// invalidCases: frames OUTSIDE ValidFrame (forbidden_zero_bit, start codes, RTP-only NALU types, too
+// many NALUs, empty access unit, too-short NALUs) through the real encoder and decoder, compared
+// with the model line by line.  No property is evaluated (the property speaks about valid frames);
+// this widens the model/code tie to the whole input domain on which the Go code does not panic.
+func invalidCases(c *corr.Ctx, s *cu.Spec) {
+	fm := famOf(s)
+	rg := c.Rng
+	n := c.N(150, 10000)
+	for i := 0; i < n; i++ {
+		p := cu.EncParams{PT: 96, SSRC: rg.Uint32(), Seq0: uint16(rg.IntN(65536)), Max: fm.pickMax(rg)}
+		inst, err := s.New(rg, p)
+		if err != nil {
+			continue
+		}
+		cs := corr.Case{Name: fmt.Sprintf("%s-invalid-%d", s.Name, i), Nontrivial: true}
+		op := func(o, impl string) {
+			cs.Ops = append(cs.Ops, s.Name+" "+o)
+			cs.Impl = append(cs.Impl, impl)
+		}
+		op(fmt.Sprintf("einit %d %d %d %d", inst.PT, p.SSRC, p.Seq0, p.Max), "ok")
+		op("dinit", "ok")
+		dec := inst.NewDec()
+		ok := true
+		for k := 0; k < 1+rg.IntN(3) && ok; k++ {
+			f := fm.invalidate(rg, fm.genFrame(rg, p.Max))
+			if len(f) == 1 && len(f[0]) == 0 {
+				continue
+			}
+			var pkts []*rtp.Packet
+			func() {
+				defer func() {
+					if recover() != nil { // documented: "the method might panic otherwise"
+						ok = false
+					}
+				}()
+				pkts, err = inst.Enc.Encode(f)
+			}()
+			if !ok {
+				c.Dist(s.Name + ".invalid-frame-encoder-panic")
+				break
+			}
+			c.Dist(s.Name + ".invalid-frame=" + corr.B(fm.validFrame(f)))
+			if err != nil {
+				op("enc "+unitsStr(f), "err")
+				continue
+			}
+			op("enc "+unitsStr(f), pktsStr(pkts))
+			for _, pk := range pkts {
+				q := pk.Clone()
+				q.Timestamp = uint32(k) * 3000
+				out, derr := dec.Decode(q)
+				res := "ok " + unitsStr(out)
+				if derr != nil {
+					res = s.Classify(derr)
+				}
+				res += fmt.Sprintf(" ret %d", cu.Retained(dec.State()))
+				op(fmt.Sprintf("dec %d %d %s %s", q.SequenceNumber, q.Timestamp, corr.B(q.Marker), corr.Hex(q.Payload)), res)
+			}
+		}
+		if ok {
+			c.Add(cs)
+		}
 	}
 }
 
@@ -382,7 +454,7 @@ func ptsCases(c *corr.Ctx, s *cu.Spec) {
 // Run is the domain entry point.
 func Run(c *corr.Ctx) {
 	ctx = c
-	c.Rule("per codec (h264, h265): round trips of 1..3 consecutive valid access units (NALU sizes concentrated within ±8 of the single/fragmented, aggregation-fit and k-fragment thresholds of the drawn payload limit; limits from the smallest workable value, mostly below 64, sometimes 100..400 and 1450; NALU counts up to the cap; initial sequence numbers incl. wrap inside the run), exhaustive single-size / size-pair sweeps at small limits, random fault streams + enumerated single (thorough: double) drop/dup/swap faults on 3-frame streams of all shape combinations, hostile streams (random, grammar-aware FU / aggregation / Annex-B payloads, mutated, shuffled, endless fragments, caps), PTSEqualsDTS on hostile and valid payloads with all prefixes; non-trivial = multi-packet or multi-frame or faulted; distinct = distinct op-line sequences")
+	c.Rule("per codec (h264, h265): round trips of 1..3 consecutive valid access units (NALU sizes concentrated within ±8 of the single/fragmented, aggregation-fit and k-fragment thresholds of the drawn payload limit; limits from the smallest workable value, mostly below 64, sometimes 100..400 and 1450; NALU counts up to the cap; initial sequence numbers incl. wrap inside the run), exhaustive single-size / size-pair sweeps at small limits, random fault streams + enumerated single (thorough: double) drop/dup/swap faults on 3-frame streams of all shape combinations, frames outside ValidFrame through the real encoder/decoder (correspondence only), the ValidFrame / ValidCfg predicates themselves (Go rendering vs Lean), hostile streams (random, grammar-aware FU / aggregation / Annex-B payloads, mutated, shuffled, endless fragments, NALU-count and size caps incl. exactly MaxAccessUnitSize), PTSEqualsDTS on hostile and valid payloads with all prefixes; non-trivial = multi-packet or multi-frame or faulted; distinct = distinct op-line sequences")
 	specs := []*cu.Spec{H264, H265}
 	if c.Replay != nil {
 		runInput(c, specs, c.Replay, "replay")
@@ -397,6 +469,7 @@ func Run(c *corr.Ctx) {
 		if c.Want("C03") || c.Want("C06") {
 			sizeSweep(c, s)
 			validCases(c, s)
+			invalidCases(c, s)
 		}
 		if c.Want("C07") {
 			faultSweep(c, s)
